@@ -46,12 +46,16 @@ func VerifRegistryRestore(saved interface{}) {
 }
 
 // VerifMessage exposes the envelope held by the Evidence: whether there is
-// one, the raw protected header, the algorithm-bearing flag, the payload and
-// the signature.
-func (e *Evidence) VerifMessage() (present bool, rawProtected, payload, signature []byte, protectedLen, unprotectedLen int) {
+// one, the bstr-wrapped protected header as it enters the Sig_structure (the
+// raw one if the message was decoded, otherwise the encoding of the header
+// map), the payload and the signature, and the sizes of the header buckets.
+func (e *Evidence) VerifMessage() (present bool, protected, payload, signature []byte, protectedLen, unprotectedLen int) {
 	if e.message == nil {
 		return false, nil, nil, nil, 0, 0
 	}
-	return true, e.message.Headers.RawProtected, e.message.Payload, e.message.Signature,
+	// operate on a copy of the headers: MarshalProtected must not be able to alter the message
+	hdr := e.message.Headers
+	protected, _ = hdr.MarshalProtected()
+	return true, protected, e.message.Payload, e.message.Signature,
 		len(e.message.Headers.Protected), len(e.message.Headers.Unprotected)
 }
